@@ -84,7 +84,7 @@ def documents(tier):
             cases.append({"def": d["id"], "argv": ["run", "p", h]})
     # a header / help text whose first fragment holds the line break, followed by further styled fragments
     for j, (t, cuts) in enumerate([("é\nmore x", [7]), ("ééé x\n\np second ñ", [9, 10]), ("first\nsecond third fourth", [13, 19])] +
-                                  [(t, None) for t in texts]):
+                                  [(t, None) for t in texts + ["\nstarts with a line break", "\n", " \n\nlater paragraph only", " "]]):
         a = D.sw("f0", "-a", "--alpha", help=pe(t))
         a["group_help"] = pe(t)
         if cuts:
